@@ -55,7 +55,10 @@ def pyPackMessage (h : Header) (payload : Bytes) : Except PyErr Bytes :=
     | .error e => .error e
     | .ok hb => .ok (hb ++ payload)
 
-/-- The encoder object: its running sequence number. -/
+/-- The encoder object: its running sequence number - and nothing else.  No header, message type, version or class
+of an earlier payload is kept from one call to the next: `encode_message` builds `MessageHeader(message.get_type())`
+anew on every call, so type and version are inputs of the call (`EncCall.type`, `EncCall.version`), never state
+(`C06_encoder_call_fields`, `C06_encoder_labels_independent_of_history`). -/
 structure Encoder where
   sequenceNumber : Nat
   deriving DecidableEq, Repr
